@@ -7,32 +7,6 @@ import Zed.Proofs.ZsonRoundtrip3
 namespace Zed.Zson
 open Generated
 
-/-- formatting with and without the trailing `decorate` differ by exactly that decorator. -/
-theorem fmt_deco_split (fst : FState) (t : Ty) (v : Val) (pi : Bool) (hp : plainTy t = true)
-    (hv : wfVal t v = true) (hn : v.isNull = false) (hb : bareEmpty v = false) :
-    fmtValue fst t v false pi true false =
-      ((fmtValue fst t v false pi false false).1, (fmtValue fst t v false pi false false).2.1,
-        (fmtValue fst t v false pi false false).2.2 ++ decoP t false) := by
-  cases v with
-  | null => simp [Val.isNull] at hn
-  | prim text => cases t <;> simp_all [wfVal, fmtValue, finish, decorateM_plain]
-  | typeval ty => cases t <;> simp_all [wfVal, fmtValue, finish, decorateM_plain]
-  | enum sel => cases t <;> simp_all [wfVal, fmtValue, finish, decorateM_plain]
-  | record vs => cases t <;> simp_all [wfVal, fmtValue, finish, decorateM_plain]
-  | array vs =>
-    cases t <;> simp_all [wfVal]
-    cases vs <;> simp_all [bareEmpty, fmtValue, finish, decorateM_plain]
-  | set vs =>
-    cases t <;> simp_all [wfVal]
-    cases vs <;> simp_all [bareEmpty, fmtValue, finish, decorateM_plain]
-  | map es =>
-    cases t <;> simp_all [wfVal]
-    cases es <;> simp_all [bareEmpty, fmtValue, finish, decorateM_plain]
-  | union tag inner => cases t <;> simp_all [wfVal, fmtValue, finish, decorateM_plain]
-  | error v' => cases t <;> simp_all [wfVal, plainTy]
-  | named v' => cases t <;> simp_all [wfVal, plainTy]
-
-
 /-- no decorator follows a (non-null, non-empty) value of a self-describing plain type whose
     union element types are fully populated. -/
 theorem selfdesc_ds (fst : FState) (t : Ty) (v : Val) (pi : Bool) (hs : selfDescribing t = true)
@@ -91,7 +65,7 @@ theorem selfdesc_ds (fst : FState) (t : Ty) (v : Val) (pi : Bool) (hs : selfDesc
     | _ => simp [wfVal] at hv
   | error v' =>
     cases t with
-    | error u => simp [plainTy] at hp
+    | error u => simp [fmtValue, finish, decorateM_plain _ _ false hp, hd]
     | _ => simp [wfVal] at hv
   | named v' =>
     cases t with
@@ -119,11 +93,11 @@ theorem nameOf_unbound (fst : FState) (n : Name) (u : Ty) (h : fst.hasName (.nam
 theorem named_top_selfdesc (fst : FState) (a0 : AState) (n : Name) (u : Ty) (v' : Val)
     (hok : nameOK n = true) (hs : selfDescribing u = true) (hp : plainTy u = true) (hw : wfTy u = true)
     (hv : wfVal u v' = true) (hn : v'.isNull = false) (hb : bareEmpty v' = false)
-    (hod : noOwnDeco u v' = true) (hfst : fst.hasName (.named n u) = false) :
+    (hod : noOwnDeco u v' = true) (herr : errOK v' = true) (hfst : fst.hasName (.named n u) = false) :
     (fmtTop fst (.named n u) (.named v')).1 = fst.saveType n (.named n u) ∧
     analyzeTop a0 (fmtTop fst (.named n u) (.named v')).2 =
       .ok (aPush a0 n (.named n u), (.named n u, .named v')) := by
-  obtain ⟨any, ds, hf, _, hA, _⟩ := goodV_all v' u false hp hw hv false fst a0
+  obtain ⟨any, ds, hf, _, hA, _⟩ := goodV_all v' u false hp hw hv herr false fst a0
   have hds : ds = [] := by
     have := selfdesc_ds fst u v' false hs hp hv hn hb hod
     rw [hf] at this; exact this
@@ -224,7 +198,7 @@ theorem convertUnion_cast (tv : TV) (ms : Tys) (c1 c2 : Ty) (x : Val)
 /-- a first-occurrence value of a named union type: `member (n=(…))`. -/
 theorem named_top_union (fst : FState) (a0 : AState) (n : Name) (ts : Tys) (tag : Nat) (inner : Val)
     (hok : nameOK n = true) (hp : plainTy (.union ts) = true) (hw : wfTy (.union ts) = true)
-    (hv : wfVal (.union ts) (.union tag inner) = true)
+    (hv : wfVal (.union ts) (.union tag inner) = true) (herr : errOK inner = true)
     (hfst : fst.hasName (.named n (.union ts)) = false) :
     (fmtTop fst (.named n (.union ts)) (.named (.union tag inner))).1 = fst.saveType n (.named n (.union ts)) ∧
     analyzeTop a0 (fmtTop fst (.named n (.union ts)) (.named (.union tag inner))).2 =
@@ -241,7 +215,7 @@ theorem named_top_union (fst : FState) (a0 : AState) (n : Name) (ts : Tys) (tag 
     simp only [wfTy, Bool.and_eq_true, decide_eq_true_eq] at hw'
     have hchain := hw'.2
     obtain ⟨any, ds, hf, hd, hA, _⟩ :=
-      goodV_all inner m false hpm hwm hv'.2 true fst (aPush a0 n (.named n (.union ts)))
+      goodV_all inner m false hpm hwm hv'.2 herr true fst (aPush a0 n (.named n (.union ts)))
     have hmn : m ≠ tyNull := by
       intro h; subst h; exact hv'.1 (wf_tyNull inner hv'.2)
     have hidx := indexOf_get? ts tag m hchain hg
@@ -273,16 +247,56 @@ theorem named_top_union (fst : FState) (a0 : AState) (n : Name) (ts : Tys) (tag 
     rw [this]
 
 
+/-- a first-occurrence value of a named error type that is not implied: `error(…) (n=error(T))`. -/
+theorem named_top_error (fst : FState) (a0 : AState) (n : Name) (x : Ty) (w : Val)
+    (hok : nameOK n = true) (hp : plainTy x = true) (hw : wfTy x = true) (hni : implied x = false)
+    (hv : wfVal x w = true) (hnn : w.isNull = false) (hbe : bareEmpty w = false) (herr : errOK w = true)
+    (hfst : fst.hasName (.named n (.error x)) = false) :
+    (fmtTop fst (.named n (.error x)) (.named (.error w))).1 = fst.saveType n (.named n (.error x)) ∧
+    analyzeTop a0 (fmtTop fst (.named n (.error x)) (.named (.error w))).2 =
+      .ok (aPush a0 n (.named n (.error x)), (.named n (.error x), .named (.error w))) := by
+  have hI := goodV_all w x false hp hw hv herr
+  have hpe : plainTy (.error x) = true := by simpa [plainTy] using hp
+  have hwe : wfTy (.error x) = true := by simpa [wfTy] using hw
+  obtain ⟨any, ds0, hf, hd0, hB0, _⟩ :=
+    error_inner x w false fst (aPush a0 n (.named n (.error x))) hp hw hnn hv hbe hI
+  have hfmt : fmtTop fst (.named n (.error x)) (.named (.error w)) =
+      (fst.saveType n (.named n (.error x)),
+        .cast (.implied (.error (mkVal any ds0))) (.def_ n (tyAst (.error x)))) := by
+    unfold fmtTop
+    simp only [hfst, implied, Val.isNull]
+    simp only [fmtValue, Bool.false_and, Bool.false_eq_true, if_false, hfst, Bool.or_self, finish,
+      hasName_plain fst _ hpe, hf]
+    simp only [decorateM, Bool.false_or, implied, Bool.and_false, Bool.false_eq_true, if_false,
+      nameOf_unbound fst n _ hfst, selfDescribing, hni, Bool.false_and, Bool.and_self]
+    rw [fmtType_named_unbound fst n _ (nameOf_unbound fst n _ hfst) hpe]
+    simp [mkVal, wrapDecos]
+  rw [hfmt]
+  refine ⟨by simp, ?_⟩
+  have hT := convertType_def a0 n (.error x) hok hpe hwe
+  have hu : unionMembers (Ty.named n (Ty.error x)).under = none := rfl
+  have hany : convertAny (aPush a0 n (.named n (.error x))) (.error (mkVal any ds0)) (some (.named n (.error x))) =
+      .ok (aPush a0 n (.named n (.error x)), (.named n (.error x), .error (strip w))) := by
+    simp [convertAny, Ty.under, hB0, bind, Except.bind, pure, Except.pure]
+  have hwf : wfVal (.named n (.error x)) (.named (.error w)) = true := by
+    have : w ≠ .null := by cases w <;> simp_all [Val.isNull]
+    simp [wfVal, hv, this]
+  have hwrap := wrapAll_strip (.named (.error w)) (.named n (.error x)) hwf
+  simp only [strip] at hwrap
+  simp only [analyzeTop, convertValue, preDefs, pure, Except.pure, bind, Except.bind, hT, castStep, typeCheck,
+    hu, viaUnion, hany, Except.map, hwrap]
+
 /-- all three shapes together. -/
 theorem named_top (fst : FState) (a0 : AState) (n : Name) (u : Ty) (v' : Val)
     (hok : nameOK n = true) (hp : plainTy u = true) (hw : wfTy u = true)
     (hv : wfVal u v' = true) (hn : v'.isNull = false) (hb : bareEmpty v' = false)
-    (hod : noOwnDeco u v' = true) (hen : enumSyms u = none) (hfst : fst.hasName (.named n u) = false) :
+    (hod : noOwnDeco u v' = true) (hen : enumSyms u = none) (herr : errOK v' = true)
+    (hfst : fst.hasName (.named n u) = false) :
     (fmtTop fst (.named n u) (.named v')).1 = fst.saveType n (.named n u) ∧
     analyzeTop a0 (fmtTop fst (.named n u) (.named v')).2 =
       .ok (aPush a0 n (.named n u), (.named n u, .named v')) := by
   by_cases hs : selfDescribing u = true
-  · exact named_top_selfdesc fst a0 n u v' hok hs hp hw hv hn hb hod hfst
+  · exact named_top_selfdesc fst a0 n u v' hok hs hp hw hv hn hb hod herr hfst
   · cases u with
     | prim id =>
       have hni : id ∉ C02.impliedPrims := by simpa [selfDescribing, implied] using hs
@@ -295,7 +309,7 @@ theorem named_top (fst : FState) (a0 : AState) (n : Name) (u : Ty) (v' : Val)
       | _ => simp [wfVal] at hv
     | union ts =>
       cases v' with
-      | union tag inner => exact named_top_union fst a0 n ts tag inner hok hp hw hv hfst
+      | union tag inner => exact named_top_union fst a0 n ts tag inner hok hp hw hv (by simpa [errOK] using herr) hfst
       | null => simp [Val.isNull] at hn
       | _ => simp [wfVal] at hv
     | enum syms => simp [enumSyms] at hen
@@ -303,7 +317,17 @@ theorem named_top (fst : FState) (a0 : AState) (n : Name) (u : Ty) (v' : Val)
     | array t => simp [selfDescribing] at hs
     | set t => simp [selfDescribing] at hs
     | map k v => simp [selfDescribing] at hs
-    | error t => simp [plainTy] at hp
+    | error x =>
+      have hni : implied x = false := by simpa [selfDescribing, implied] using hs
+      cases v' with
+      | error w =>
+        simp only [wfVal, Bool.and_eq_true, bne_iff_ne, ne_eq] at hv
+        simp only [errOK, Bool.and_eq_true, Bool.not_eq_true'] at herr
+        have hnw : w.isNull = false := by cases w <;> simp_all [Val.isNull]
+        exact named_top_error fst a0 n x w hok (by simpa [plainTy] using hp) (by simpa [wfTy] using hw) hni hv.2 hnw
+          herr.1 herr.2 hfst
+      | null => simp [Val.isNull] at hn
+      | _ => simp [wfVal] at hv
     | named m t => simp [plainTy] at hp
 
 end Zed.Zson
